@@ -1131,6 +1131,105 @@ fn run_rt_identify(v: &Value, rng: &mut StdRng, rig: &IdentifyRig, out: &mut Out
     out.push(json!({"e": "rt", "dec": "identify", "v": v, "out": o, "same": same}));
 }
 
+// ---------------------------------------------------------------- systematic truncation
+/// Not sampled: for a fixed catalogue of valid inputs of the cheap stateless decoders every
+/// prefix (cut at every offset) and every "announced length = available + 1 / + 2 / + prefix
+/// size" variant is run, in every tier and for every seed.
+fn run_truncations(rt: &tokio::runtime::Runtime, out: &mut Out) {
+    let long = |n: usize| -> Vec<u8> {
+        let mut v = b"/long/".to_vec();
+        v.extend(std::iter::repeat(b'x').take(n - 7));
+        v.push(b'\n');
+        v
+    };
+    let header = b"/multistream/1.0.0\n".to_vec();
+    let contents: Vec<Vec<u8>> = vec![
+        header.clone(), b"na\n".to_vec(), b"ls\n".to_vec(), b"/sup/1\n".to_vec(), b"/unsup/1\n".to_vec(), b"/\n".to_vec(),
+        long(126), long(127), long(128), long(129), long(300),
+        b"\n".to_vec(), b"\x03/x\n\n".to_vec(), b"\x03/x\n\x07/sup/1\n\x03/y\n\n".to_vec(),
+        [uvarint(200), long(200), uvarint(128), long(128), b"\n".to_vec()].concat(),
+    ];
+    // ---- Message::decode: every prefix, and every list entry announcing more than follows
+    for c in &contents {
+        for (op, m) in truncations_framed(c).into_iter().chain((0..c.len()).map(|k| ("truncate".to_string(), c[..k].to_vec()))) {
+            let (r, alloc) = measured(|| dc::Message::decode(Bytes::from(m.clone())));
+            out.push(pb_event("mss_message", &op, match r { Err(_) => "panic", Ok(Err(_)) => "err", Ok(Ok(_)) => "ok" }, alloc, dc::MSS_MAX_FRAME_SIZE, m.len()));
+        }
+    }
+    // ---- negotiation payloads: one, two and three framed messages
+    let f = |c: &[u8]| framed(c);
+    let sup = b"/sup/1\n".to_vec();
+    let mut payloads: Vec<Vec<u8>> = vec![
+        f(&header), f(&sup), f(b"/unsup/1\n"), f(b"na\n"), f(b"ls\n"),
+        [f(&header), f(&sup)].concat(), [f(&header), f(b"/unsup/1\n")].concat(), [f(&header), f(b"na\n")].concat(),
+        [f(&header), f(b"ls\n")].concat(), [f(&header), f(&header)].concat(), [f(&sup), f(&sup)].concat(),
+        [f(&header), f(&sup), f(b"/unsup/1\n")].concat(), [f(&header), f(b"\x03/x\n\x03/y\n\n")].concat(),
+    ];
+    for n in [126usize, 127, 128, 129, 300] {
+        payloads.push(f(&long(n)));
+        payloads.push([f(&header), f(&long(n))].concat());
+        payloads.push([f(&long(n)), f(&sup)].concat());
+    }
+    let long_name = |n: usize| String::from_utf8(long(n)[..n - 1].to_vec()).unwrap();
+    let supported: Vec<ProtocolName> =
+        [SUP.to_string(), long_name(127), long_name(128), long_name(300)].into_iter().map(ProtocolName::from).collect();
+    // one decoder after the other: the observations of a decoder form one trace segment
+    let cases: Vec<(String, Vec<u8>)> = payloads.iter().flat_map(|p| truncations_framed(p)).collect();
+    for (op, m) in &cases {
+        for hr in [false, true] {
+            let (r, alloc) = measured(|| dc::webrtc_listener_negotiate(supported.clone(), Bytes::from(m.clone()), hr));
+            out.push(pb_event("mss_listener", op, match r { Err(_) => "panic", Ok(Err(_)) => "err", Ok(Ok(_)) => "ok" }, alloc, 16384, m.len()));
+        }
+    }
+    for (op, m) in &cases {
+        for proposed in [SUP.to_string(), long_name(128)] {
+            let (r, alloc) = measured(|| {
+                let (mut st, _) = dc::WebRtcDialerState::propose(ProtocolName::from(proposed.clone()), vec![]).expect("propose");
+                st.register_response(m.clone())
+            });
+            out.push(pb_event("mss_dialer", op, match r { Err(_) => "panic", Ok(Err(_)) => "err", Ok(Ok(_)) => "ok" }, alloc, 16384, m.len()));
+        }
+    }
+    // the same bytes as a stream of frames through LengthDelimited / MessageIO
+    for (op, m) in &cases {
+        for plan in [vec![], vec![1usize]] {
+            let reader = Chunked { data: m.clone(), pos: 0, plan, step: 0, pending_next: false };
+            let (r, alloc) = measured(|| {
+                let mut io = dc::MessageIO::new(reader);
+                futures::executor::block_on(async {
+                    for _ in 0..m.len() + 2 {
+                        match io.next().await {
+                            None => return "ok",
+                            Some(Ok(_)) => {}
+                            Some(Err(_)) => return "err",
+                        }
+                    }
+                    "hang"
+                })
+            });
+            out.push(pb_event("length_delimited", op, r.unwrap_or("panic"), alloc, dc::MSS_MAX_FRAME_SIZE, m.len()));
+        }
+    }
+    // ---- substream length prefix: read_payload_size on every prefix of every varint shape,
+    //      and a real substream cut at every offset of (prefix + payload)
+    for v in [0u64, 1, 127, 128, 300, 16383, 16384, 1 << 21, 1 << 28, 1 << 35, 1 << 56, (1 << 63) - 1, 1 << 63, u64::MAX] {
+        let enc = [uvarint(v), vec![0xaa, 0xbb]].concat();
+        for k in 0..=enc.len() {
+            let (r, alloc) = measured(|| dc::read_payload_size(&enc[..k]));
+            out.push(pb_event("payload_size", "truncate", match r { Err(_) => "panic", Ok(Err(_)) => "err", Ok(Ok(_)) => "ok" }, alloc, 16, k));
+        }
+    }
+    for size in [0usize, 1, 5, 127, 128, 130] {
+        let wire = [uvarint(size as u64), (0..size).map(|i| i as u8).collect()].concat();
+        for (op, m) in truncations_framed(&wire) {
+            tick(|| format!("substream truncation {size}"));
+            let (r, alloc) = rt.block_on(poll_substream(dc::ProtocolCodec::UnsignedVarint(Some(256)), m.clone()));
+            let o = match r { SubOutcome::Panic(_) => "panic", SubOutcome::Error => "err", _ => "ok" };
+            out.push(pb_event("substream", &op, o, alloc, 256, m.len()));
+        }
+    }
+}
+
 // ---------------------------------------------------------------- noise handshake frames
 /// Raw bytes to the real `handshake()` in both roles: the frame length reader and whatever
 /// follows must end in an error, never a panic, allocating at most one 64 KiB frame.
@@ -1226,6 +1325,7 @@ fn work(args: &Args, out: &mut Out) {
     out.push(json!({"e": "reset", "i": "plan"}));
     run_pb(seed, args.u64("pb-rounds", 2), args.u64("pb-extra", 8) as usize, out);
     run_noise_frames(seed, args.u64("noise-frames", 40), &rt, out);
+    run_truncations(&rt, out);
     if args.get("nomax").is_some() {
         out.push(json!({"e": "reset", "i": "nomax"}));
         run_nomax(out);
